@@ -84,7 +84,7 @@ def acctTok (s : State) : List String :=
   else []
 
 def mutating : List String :=
-  ["createUpload", "writeUpload", "commit", "createCache", "writeBlob", "genMeta", "drain", "ttl", "delete"]
+  ["createUpload", "writeUpload", "commit", "createCache", "writeBlob", "genMeta", "drain", "ttl", "delete", "block", "unblock"]
 
 /-- replay of one record; result: new core, the model's observation, branch id -/
 def step1 (c : Core) (kind : String) (args : List String) : Option (Core × List String × String) :=
@@ -148,6 +148,12 @@ def step1 (c : Core) (kind : String) (args : List String) : Option (Core × List
   | "op", ["delete", n] =>
     let (m, r) := deleteCache c.m n
     some ({ c with m }, [resTok r], s!"delete.{resTok r}")
+  | "op", ["block", p] =>
+    let (m, r) := block c.m p
+    some ({ c with m }, [resTok r], s!"block.{resTok r}")
+  | "op", ["unblock", p] =>
+    let (m, r) := unblock c.m p
+    some ({ c with m }, [resTok r], s!"unblock.{resTok r}")
   | "op", ["probe", n] =>
     let o := probeObs c.m n
     let br := (if inMem c.m n then "probe.mem" else if (readable c.m n).isSome then "probe.disk" else "probe.absent") ++
